@@ -292,6 +292,15 @@ def r05_3(run):
         run.ob('R05.3', pr, dn.ast, 'address parsing only for version 5', okv, slot='gate-version', message='reply parsed as success without version == 5')
         run.ob('R05.3', pr, dn.ast, 'address parsing only for REP == succeeded', okr, slot='gate-success',
                message='address parsers (which create the application connection) are reachable for a non-success reply code')
+    # the address-type field is examined only after the reply code said "succeeded"
+    for n in g.real_nodes():
+        if n.kind == 'stmt' and n.ast is unp:
+            continue
+        if any(isinstance(a, ast.Name) and a.id == typ and isinstance(a.ctx, ast.Load) for a in node_asts(n)):
+            okr = any(g.edge_dominates(tn, lab, n) for tn, lab in test_of(rep, 0))
+            run.ob('R05.3', pr, n.ast, 'ATYP consulted only for a success reply', okr, slot='atyp-after-rep',
+                   message='the address type is examined before the reply code: a failure reply with an unknown '
+                           'address type is reported as "unexpected response type" and loses its error code')
     # error mapping: reply_error(_create_socks_error(<REP>))
     hits = 0
     for c in calls_in(pr, 'self.reply_error'):
